@@ -10,10 +10,12 @@
 #   (10 e) upper (11 e) lower (12 e) capitalize (13 e) capfirst (14 e p) add_period(p) (15 e) abbreviate
 #   (16 e i j) e[i:j] (i, j options)  (17 e i) e[i]  (18 a b) a + b  (19 a b) a.append(b)
 #   (20 sep es) sep.join(es)  (21 e sep keep k) e.split(sep, keep)[k]
+#   (22 a x) b = a; b += x   (23 opname a x) b = a; b <opname>= x for any other in-place operator (oracle only)
+#   (24 a x) a[0] = x   (25 a) del a[0]   (oracle only: texts are immutable, both must raise)
 # separators: (0) None  (1 s) str  (2) textutils.delimiter_re  (3) an int (malformed)
 # A value is observed as [structure dump, flat, str(), len()], flat = what a tracing back end
 # (RenderType = list of (atom, markup stack)) renders.
-import itertools, random, warnings
+import itertools, random, warnings, operator
 from core import *
 import core
 
@@ -106,6 +108,11 @@ def apply_node(op, params, objs):
     if op == 16: return x[slice(pyopt(params[0]), pyopt(params[1]))]
     if op == 17: return x[params[0]]
     if op == 18: return x + objs[1]
+    if op == 22: return operator.iadd(x, objs[1])
+    if op == 23: return getattr(operator, S(params[0]))(x, objs[1])
+    if op == 24: operator.setitem(x, 0, objs[1]); return x
+    if op == 25: operator.delitem(x, 0); return x
+    if op == 36: return x != objs[1]
     if op == 19: return x.append(objs[1])
     if op == 20: return x.join(list(objs[1:]))
     if op == 21: return x.split(pysep(params[0]), pykeep(params[1]))[params[2]]
@@ -130,6 +137,10 @@ def node_parts(e):
     if t == 16: return t, [e[2], e[3]], [e[1]], False
     if t == 17: return t, [e[2]], [e[1]], False
     if t == 18: return t, [], [e[1], e[2]], False
+    if t == 22: return t, [], [e[1], e[2]], 'tail'
+    if t == 23: return t, [e[1]], [e[2], e[3]], 'tail'
+    if t == 24: return t, [], [e[1], e[2]], 'tail'
+    if t == 25: return t, [], [e[1]], False
     if t == 19: return t, [], [e[1], e[2]], 'tail'
     if t == 20: return t, [], [e[1]] + list(e[2]), 'tail'
     if t == 21: return t, [e[2], e[3], e[4]], [e[1]], False
@@ -155,19 +166,37 @@ def build(e, trace):
             objs.append(build(s, trace))
     return run_node(op, params, objs, trace)
 
+_LIVE = []          # every object built so far in the current case (leaves, operands, results): all stay referenced
+
+_SNAP = []          # snapshots of _LIVE taken after the previous call of the case (nothing runs in between)
+def _live_snapshot():
+    return [(dump(o), str(o)) for o in _LIVE]
+
 def run_node(op, params, objs, trace):
+    for o in objs:
+        if not isinstance(o, (str, int)) and not any(o is x for x in _LIVE):
+            _LIVE.append(o)
     before = [opval(o) for o in objs]
+    while len(_SNAP) < len(_LIVE):
+        o = _LIVE[len(_SNAP)]; _SNAP.append((dump(o), str(o)))
+    live_before = list(_SNAP)
     try:
         r = apply_node(op, params, objs)
     except Exception as ex:
-        trace.append([op, params, before, None, 0, type(ex).__name__])
+        changed = before != [opval(o) for o in objs] or live_before != _live_snapshot()
+        trace.append([op, params, before, None, 1 if changed else 0, type(ex).__name__])
         raise Raised(ex)
     after = [opval(o) for o in objs]
+    _SNAP[:] = _live_snapshot()
+    if live_before != _SNAP:
+        after = None          # some other text that is still referenced changed
+    if op < 30 and op != 30 and not isinstance(r, (str, int)) and not any(r is x for x in _LIVE):
+        _LIVE.append(r)
     if op == 30: rv = [val(x) for x in r]
     elif op >= 31: rv = 1 if r else 0
     else: rv = val(r)
     ent = [op, params, before, rv, 0 if before == after else 1]
-    if op in (12, 13, 18, 20):
+    if op in (12, 13, 18, 20, 22):
         # probe: what a later append does to the result (the result object itself is not modified)
         try:
             ent.append(r.append('!').render(backend()))
@@ -180,6 +209,7 @@ def _impl(top):
     """top(trace) -> canonical result; returns [0, result, trace] / [1, trace] / [2, trace]"""
     from pybtex.exceptions import PybtexError
     trace = []
+    del _LIVE[:]; del _SNAP[:]
     with warnings.catch_warnings():
         warnings.simplefilter('ignore')
         try:
@@ -202,6 +232,7 @@ def impl_startswith(a): return _impl(lambda tr: _obs(32, a, tr))
 def impl_endswith(a): return _impl(lambda tr: _obs(33, a, tr))
 def impl_isalpha(a): return _impl(lambda tr: _obs(34, a, tr))
 def impl_eq(a): return _impl(lambda tr: _obs(35, a, tr, True))
+def impl_ne(a): return _impl(lambda tr: _obs(36, a, tr, True))
 
 FUNCS = {
     1: ('richtext expression -> value (structure, flat rendering, str, len)', impl_eval, ('T', 'E')),
@@ -211,7 +242,8 @@ FUNCS = {
     5: ('text.endswith(suffix | tuple)', impl_endswith, ('T', 'E', ('L', 'S'))),
     6: ('text.isalpha()', impl_isalpha, ('T', 'E')),
     7: ('text1 == text2', impl_eq, ('T', 'E', 'E')),
-    8: ('richtext expression over characters whose case mapping changes length (oracle only: outside the modelled character domain)', impl_eval, ('T', 'E')),
+    9: ('text1 != text2', impl_ne, ('T', 'E', 'E')),
+    8: ('richtext expression over characters whose case mapping changes length / other in-place operators, item assignment and deletion (oracle only: outside the model)', impl_eval, ('T', 'E')),
 }
 
 def canon(fn, out):
@@ -266,7 +298,7 @@ def _expr_shrinks(e):
                 yield [20, e[1], e[2][:i] + [y] + e[2][i + 1:]]
         return
     # unary / binary methods: shrink the operand expressions in place
-    idx = {18: [1, 2], 19: [1, 2]}.get(t, [1])
+    idx = {18: [1, 2], 19: [1, 2], 22: [1, 2], 24: [1, 2], 23: [2, 3]}.get(t, [1])
     for i in idx:
         for y in _expr_shrinks(e[i]):
             yield e[:i] + [y] + e[i + 1:]
@@ -464,7 +496,7 @@ def expected_top(op, params, ins):
     """the markup level the result object itself carries (what a later append / add_period will put new
     characters into): a + b, join, capfirst, capitalize give a plain text; methods that keep the text
     'similar' (upper, lower, slices, index, add_period, append, split pieces) keep the receiver's own level"""
-    if op in (18, 20): return None
+    if op in (18, 20, 22): return None
     if op in (12, 13): return ('p',) if top_markup(ins[0]) == ('p',) else None
     if op in (10, 11, 14, 16, 17, 19, 21): return top_markup(ins[0])
     return _SKIP
@@ -494,7 +526,7 @@ def check_pairs(ent):
     if op == 30 and out is not None and not all(is_normal(p[0]) for p in out):
         return 'a piece of split is not in normal form'
     if mutated:
-        return 'an operand was modified by operation %d' % op
+        return 'an operand (or another text that is still referenced) was modified by operation %d' % op
     if any(x[0] == [6] for x in ins) or (op in (21, 30) and params[0][0] == 3):
         return None                      # malformed call: nothing demanded but the comparison with the model
     F = [fl(x) for x in ins]
@@ -545,9 +577,14 @@ def check_pairs(ent):
         if out is None:
             return None if ent[5] == 'IndexError' else 'indexing outside the bounds raised %s, not IndexError' % ent[5]
         return 'F23: text[%d] outside the bounds of a text of length %d returns %r where str raises IndexError' % (i, len(x), fl(out))
-    if op == 18:
-        if out is None: return '+ raised %s' % ent[5]
-        return cmp(x + F[1], 'concatenation')
+    if op in (18, 22):
+        if out is None: return '+ / += raised %s' % ent[5]
+        return cmp(x + F[1], 'concatenation' if op == 18 else 'b = a; b += x')
+    if op == 23:
+        return None      # an in-place operator other than +=: only 'operands are never modified' is demanded
+    if op in (24, 25):
+        if out is None: return None
+        return 'item assignment / deletion is accepted: a rich text must be immutable like str (TypeError)'
     if op == 19:
         if out is None: return 'append raised %s' % ent[5]
         return cmp(x + pushm(mx, F[1]), 'append')
@@ -607,6 +644,11 @@ def check_pairs(ent):
         if out is None: return 'isalpha raised %s' % ent[5]
         exp = bool(x) and all(a[0] == 'c' and chr(a[1]).isalpha() for a, _ in x)
         return None if bool(out) == exp else 'isalpha of %r is %r' % (x, bool(out))
+    if op == 36:
+        if out is None: return '!= raised %s' % ent[5]
+        e2 = list(ent); e2[0] = 35; e2[3] = 0 if out else 1
+        m = check_pairs(e2)
+        return m.replace('==', '!= (negated)') if m else None
     if op == 35:
         if out is None: return '== raised %s' % ent[5]
         ca, cb = top_class(ins[0]), top_class(ins[1])
@@ -675,6 +717,10 @@ def show(e):
     if t == 16: return '%s[%s:%s]' % (r(e[1]), '' if not e[2] else e[2][0], '' if not e[3] else e[3][0])
     if t == 17: return '%s[%d]' % (r(e[1]), e[2])
     if t == 18: return '(%s + %s)' % (r(e[1]), r(e[2]))
+    if t == 22: return '[b = %s; b += %s; b]' % (r(e[1]), show(e[2]))
+    if t == 23: return '[b = %s; b = operator.%s(b, %s); b]' % (r(e[2]), S(e[1]), show(e[3]))
+    if t == 24: return '[a = %s; a[0] = %s; a]' % (r(e[1]), show(e[2]))
+    if t == 25: return '[a = %s; del a[0]; a]' % r(e[1])
     if t == 19: return '%s.append(%s)' % (r(e[1]), show(e[2]))
     if t == 20: return '%s.join([%s])' % (r(e[1]), ', '.join(show(p) for p in e[2]))
     if t == 21: return '%s.split(%s, %r)[%d]' % (r(e[1]), showsep(e[2]), pykeep(e[3]), e[4])
@@ -690,6 +736,7 @@ def describe(fn, a):
     if fn in (4, 5): return {'python': '%s.%s(%r)' % (r(a[0]), 'startswith' if fn == 4 else 'endswith', needles(a[1]))}
     if fn == 6: return {'python': '%s.isalpha()' % r(a[0])}
     if fn == 7: return {'python': '%s == %s' % (r(a[0]), r(a[1]))}
+    if fn == 9: return {'python': '%s != %s' % (r(a[0]), r(a[1]))}
     return {'fn': fn, 'arg': a}
 
 def nontrivial(fn, arg, out):
@@ -792,7 +839,8 @@ def rand_tree(rng, depth, strs):
 
 STRS = ['a', 'B c', '', 'Long cat', ' x', 'y ', 'The End.', 'a-b', 'well-known text', 'Q?', 'e!', '  ', 'Ab', 'zZ', ',', ', ', 'x, y', '\t', 'a b', '-', '3', 'f g', '€', 'CamelCase']
 def rand_op(rng, e, depth):
-    c = rng.randint(0, 15)
+    c = rng.randint(0, 16)
+    if c == 16: return [22, e, rand_tree(rng, depth, STRS)]
     n = 8
     ri = lambda: rng.choice([[], [rng.randint(-n, n)], [rng.randint(-2, 4)]])
     if c == 0: return [10, e]
@@ -851,8 +899,8 @@ def _gen0(tier, rng):
     one, two, three = trees(1), trees_upto(2), trees_upto(3)
     if quick:
         ctor = three + trees(4)[::3]
-        slc = two + trees(3)[::5]
-        mid = two + trees(3)[::2]
+        slc = two + trees(3)[::7]
+        mid = two + trees(3)[::3]
         bin_a = two + trees(3)[::12]
         join_c = two[::18]
     else:
@@ -923,6 +971,24 @@ def _gen0(tier, rng):
                     yield ('empty_operand_history', 1, [[16, e, [1], []]])
                 yield ('empty_operand_history', 7, [[18, x, y], T(x, y)])
                 yield ('empty_operand_history', 7, [[20, x, [y, y]], T(y, x, y)])
+    # the operator protocol on values that stay referenced: b = a; b += x (and any other in-place operator a class
+    # defines or falls back to), a[0] = x, del a[0], !=
+    xs = [E('!'), T(E('x')), TAG('em', E('y')), NBSP, E('')]
+    for a in two + [t for t in trees(3)[::(11 if quick else 3)]]:
+        selfret = [a, [14, a, norm('.')], [14, [14, a, norm('.')], norm('.')], [10, a], [13, a], [16, a, [], []], [19, a, E('')], [18, a, E('')], [22, a, E('?')]]
+        for h in selfret:
+            for x in (xs if h is a else xs[:2]):
+                yield ('operator_protocol', 1, [[22, h, x]])
+                yield ('operator_protocol', 1, [[19, [22, h, x], E('!')]])
+        for name in inplace_operators():
+            for x in xs[:3] + [[6]]:
+                yield ('operator_protocol', 8, [[23, norm(name), a, x]])
+        yield ('operator_protocol', 8, [[24, a, E('x')]])
+        yield ('operator_protocol', 8, [[25, a]])
+    for a in two:
+        for b in two[::(7 if quick else 2)]:
+            yield ('operator_protocol', 9, [a, b])
+            yield ('operator_protocol', 9, [T(a, b), T(T(a), b)])
     # equality of differently grouped constructions of the same text
     for t in (three if not quick else two + trees(3)[::3]):
         yield ('regroup', 7, [T(t), T(T(t), E(''))])
@@ -978,6 +1044,40 @@ def _gen0(tier, rng):
             e = rand_op(rng, e, 1)
         yield ('malformed', 1, [e])
 
+# ---- the operator protocol: which in-place operators can Python dispatch to these classes? ----
+_INPLACE = ['iadd', 'imul', 'isub', 'ior', 'iand', 'ixor', 'imatmul', 'itruediv', 'ifloordiv', 'imod', 'ipow', 'ilshift', 'irshift']
+def richtext_classes():
+    import pybtex.richtext as R
+    return [c for c in vars(R).values() if isinstance(c, type) and issubclass(c, R.BaseText)]
+def defined_dunders():
+    names = set()
+    for c in richtext_classes():
+        names.update(k for k in vars(c) if k.startswith('__') and k.endswith('__'))
+    return names
+def inplace_operators():
+    """the in-place operators other than += that some rich-text class defines directly or through the binary
+    fallback (found in the working tree at run time), plus two that nothing defines (they must raise)"""
+    d = defined_dunders()
+    out = [n for n in _INPLACE[1:] if '__%s__' % n in d or '__%s__' % n[1:] in d or '__r%s__' % n[1:] in d]
+    return out + [n for n in ('imul', 'ior') if n not in out]
+_KNOWN_DUNDERS = {'__add__', '__contains__', '__dict__', '__doc__', '__eq__', '__getitem__', '__hash__', '__init__', '__len__',
+                  '__metaclass__', '__module__', '__ne__', '__repr__', '__str__', '__weakref__', '__abstractmethods__', '__qualname__',
+                  '__firstlineno__', '__static_attributes__', '__annotations__', '__slots__'}
+_EXERCISED = {'__%s__' % n for n in _INPLACE} | {'__%s__' % n[1:] for n in _INPLACE} | {'__setitem__', '__delitem__'}
+_MUTATING_PROTOCOL = {'__setattr__', '__delattr__', '__set__', '__delete__', '__setstate__', '__iconcat__'}
+
+def extra_checks(ck, tier, rng):
+    """fail closed: a protocol method through which Python can modify a text and which no stream exercises"""
+    d = defined_dunders()
+    fails = []
+    for n in sorted(d):
+        if n in _KNOWN_DUNDERS or n in _EXERCISED:
+            continue
+        if n in _MUTATING_PROTOCOL or (n.startswith('__i') and n[3:-2] and '__%s__' % n[3:-2] in {'__%s__' % m[1:] for m in _INPLACE}):
+            fails.append((n, 'a rich-text class defines %s, through which Python can modify a text in place, and no stream exercises it' % n, False))
+    yield {'name': 'operator_protocol_methods', 'evaluations': len(d), 'failures': fails,
+           'info': 'dunder methods defined on the rich-text classes of the working tree: %s; in-place operators exercised: += and %s' % (sorted(d), inplace_operators())}
+
 # ---- url / tag name passed as a rich-text object (HRef(String(u), ...), Tag(Text(n), ...)) ----
 _HMODES = [1, 0, 2, 3]      # successive HRef nodes of one case: String(url), plain str, Text(url), Text(url[:k], url[k:])
 _TMODES = [0, 2, 0, 3]      # successive Tag nodes: plain str, Text(name), plain str, Text(name[:k], name[k:])
@@ -996,7 +1096,8 @@ def objnames(e, st):
         return [7, mode, e[1], e[2], ps] if mode else [4, e[1], e[2], ps]
     if t in (7, 8): return e
     if t == 20: return [20, objnames(e[1], st), m(e[2])]
-    if t in (18, 19): return [t, objnames(e[1], st), objnames(e[2], st)]
+    if t in (18, 19, 22, 24): return [t, objnames(e[1], st), objnames(e[2], st)]
+    if t == 23: return e
     return [t, objnames(e[1], st)] + list(e[2:])
 
 def has_named(e):
@@ -1006,7 +1107,8 @@ def has_named(e):
     if t in (2, 5): return any(has_named(p) for p in e[1])
     if t in (7, 8): return False
     if t == 20: return has_named(e[1]) or any(has_named(p) for p in e[2])
-    if t in (18, 19): return has_named(e[1]) or has_named(e[2])
+    if t in (18, 19, 22, 24): return has_named(e[1]) or has_named(e[2])
+    if t == 23: return False
     return has_named(e[1])
 
 _OBJ_STREAMS = ('pinned', 'exhaustive_ctor', 'exhaustive_unary', 'exhaustive_binary', 'regroup', 'random_ops', 'exhaustive_observe')
@@ -1065,7 +1167,7 @@ RULE = ('pinned: the inputs of the defects F8 F9 F10 F17 F23 and every disagreem
         '[-(n+2), n+2] and None, every unary method, split with 7 separators x 3 keep_empty_parts values, contains / '
         'startswith / endswith with every substring up to length 3 (and tuples), + / append / == on all pairs, join on triples, '
         'and regrouped constructions compared with ==; random: deeper trees over 24 strings with up to 6 methods applied on top '
-        'of one another; empty_operand_history: every empty text (Text(), String(""), Tag, Protected, HRef) on either side of +, append, join, '
+        'of one another; operator_protocol: b = a; b += x with a still referenced (a also being the value an earlier add_period / upper / capfirst / slice / append returned), any other in-place operator the classes define or fall back to, a[0] = x, del a[0], != ; after EVERY call of every stream every text object built so far in the case (operands, earlier results, leaves) is compared with its snapshot (structure dump + str, operands also rendering + len); empty_operand_history: every empty text (Text(), String(""), Tag, Protected, HRef) on either side of +, append, join, '
         'followed by append / add_period / capfirst / a slice and by == against the flat-equal reference construction; malformed: non-text parts, bad separators, out-of-range piece indices, the deprecated tag name; '
         '_nameobj: every case of the constructor / unary / binary / == / regroup / observer / random streams that contains an HRef or a Tag is run '
         'a second time with the urls / tag names passed as String(url), Text(url), Text(url[:k], url[k:]) objects in rotation (== also against the '
